@@ -69,11 +69,17 @@ let handle (line : string) : string =
       let ops = List.init (String.length ops) (fun i -> op_of_char ops.[i]) in
       let data = bytes_of_hex plain in
       let minb = big_nat (int_of_string ("0x" ^ minb)) in
+      let k = if backend = "MO" || backend = "MOZ" then int_of_string ("0x" ^ chunks) else 0 in
+      let base = if variant <> "spec" && k > 0 && _comp = "-" then k else 0 in
       let tr =
         if variant = "spec" then Some (spec_run (big_nat (List.length data)) ops data)
         else begin
           let v = if variant = "original" then original else repaired in
+          (* MO / MOZ: a descriptor at offset k of a regular file: plain content -> the mmap backend started at k (the header's
+             bytes are never looked at: zeros), compressed content -> the decompressor chain; offsets are printed relative to k *)
+          let data = if (backend = "MO" || backend = "MOZ") && _comp = "-" then List.init k (fun _ -> byte_tab.(48)) @ data else data in
           let (be, ch) = match backend with
+            | ("MO" | "MOZ") when _comp = "-" -> (BFileAt (big_nat k), [])
             | "M" -> (BFile, [])
             | "R" -> (BPipe, oracle_of chunks)
             | "MF" -> (BFileNoMmap, oracle_of chunks)
@@ -89,7 +95,7 @@ let handle (line : string) : string =
            List.iteri (fun i (r, off) ->
                if i > 0 then Buffer.add_char b ' ';
                put_res b r;
-               Buffer.add_string b (Printf.sprintf "@%x" (int_of_big_nat off))) l;
+               Buffer.add_string b (Printf.sprintf "@%x" (int_of_big_nat off - base))) l;
            Buffer.contents b)
   | "RC" :: _src :: comp :: chunks :: reqs :: plains :: complens :: [] ->
       (* the model of ReadCompressed: members = (compressed length, plaintext); the compressed bytes themselves only matter
